@@ -1,0 +1,9 @@
+//go:build !verif
+
+package queue
+
+// Verification hooks are compiled out without the "verif" build tag.
+
+func verifGate(string, any) {}
+
+func verifEmit(string, any, any) {}
